@@ -151,7 +151,7 @@ type loopOp struct {
 	U    int    // delay: the awaited type; unreg: index into the list of live handlers (mod len)
 	Prio bool   // reg: prioritised
 	InAdd bool  // reg: UnsafeRunInAddEvent
-	Act  int    // reg: what the handler does when invoked: 0 nothing, 1 adds an event of type U (bounded), 2 unregisters itself, 3 unregisters the handler U (mod len)
+	Act  int    // reg: what the handler does when invoked: 0 nothing, 1 adds an event of type U (bounded), 2 unregisters itself, 3 unregisters the handler U (mod len), 4 defers one new event until type U, 5 defers two
 }
 
 type loopCase struct {
@@ -185,6 +185,13 @@ func mkEvent(typ, val int) any {
 	return evC(val)
 }
 
+type mev struct{ typ, val int }
+type deferRec struct {
+	awaited int
+	ev      mev
+	post    bool // made while deferred events were being re-added (it then waits for the NEXT event of the awaited type)
+}
+
 func loopProp(c loopCase) common.Result {
 	el := New(logging.NewWithDest(io.Discard, "c14"), uint(c.Cap))
 	var (
@@ -192,9 +199,11 @@ func loopProp(c loopCase) common.Result {
 		calls    []callRec
 		nextVal  = 1
 		spawned  = 0
+		inSpawn, inTick    bool
+		deferredByHandlers int
+		pendingDefer       []deferRec // deferrals made by handlers during the current real call, applied to the model afterwards
 	)
 	// model state
-	type mev struct{ typ, val int }
 	var (
 		mq       []mev         // model queue
 		mwait    = map[int][]mev{} // awaited type -> delayed events in deferral order
@@ -213,7 +222,7 @@ func loopProp(c loopCase) common.Result {
 	var unregDuringDispatch, nDelayedDelivered int
 	var addEvent func(typ, val int)
 	register := func(op loopOp) {
-		h := &hrec{id: len(handlers), typ: op.T % 3, prio: op.Prio, inAdd: op.InAdd, act: op.Act % 4, u: op.U, live: true}
+		h := &hrec{id: len(handlers), typ: op.T % 3, prio: op.Prio, inAdd: op.InAdd, act: op.Act % 6, u: op.U, live: true}
 		cb := func(val int) {
 			calls = append(calls, callRec{h.id, h.typ, val, h.inAdd})
 			switch h.act {
@@ -222,13 +231,34 @@ func loopProp(c loopCase) common.Result {
 					spawned++
 					v := nextVal
 					nextVal++
+					was := inSpawn
+					inSpawn = true
 					addEvent(h.u%3, v)
+					inSpawn = was
 				}
 			case 2:
 				if h.live {
 					h.unregister()
 					h.live = false
 					unregDuringDispatch++
+				}
+			case 4, 5:
+				// the handler defers new events (possibly while deferred events are being re-added)
+				for k := 0; k < h.act-3 && deferredByHandlers < 8; k++ {
+					deferredByHandlers++
+					v := nextVal
+					nextVal++
+					awaited := h.u % 3
+					switch awaited {
+					case 0:
+						DelayUntil[evA](el, mkEvent(h.typ, v))
+					case 1:
+						DelayUntil[evB](el, mkEvent(h.typ, v))
+					default:
+						DelayUntil[evC](el, mkEvent(h.typ, v))
+					}
+					pendingDefer = append(pendingDefer, deferRec{awaited, mev{h.typ, v}, h.inAdd && !inSpawn && inTick})
+					delayed[v] = true
 				}
 			case 3:
 				l := liveHandlers()
@@ -319,6 +349,12 @@ func loopProp(c loopCase) common.Result {
 			mq = mq[1:] // drop-oldest
 		}
 		mq = append(mq, mev{typ, val})
+		if !inTick {
+			for _, d := range pendingDefer {
+				mwait[d.awaited] = append(mwait[d.awaited], d.ev)
+			}
+			pendingDefer = nil
+		}
 	}
 	tick := func() (bool, string) {
 		if len(mq) == 0 {
@@ -331,10 +367,27 @@ func loopProp(c loopCase) common.Result {
 		mq = mq[1:]
 		snapshot := liveHandlers()
 		before := len(calls)
-		// delayed events waiting for this type are re-added (in deferral order) after the handlers ran
+		inTick = true
+		ticked := el.Tick(context.Background())
+		inTick = false
+		// deferrals made by handlers while the event was dispatched come first ...
+		var post []deferRec
+		for _, d := range pendingDefer {
+			if d.post {
+				post = append(post, d)
+			} else {
+				mwait[d.awaited] = append(mwait[d.awaited], d.ev)
+			}
+		}
+		pendingDefer = nil
+		// ... then the events waiting for this type are re-added (in deferral order) after the handlers ran ...
 		waiting := mwait[head.typ]
 		delete(mwait, head.typ)
-		if !el.Tick(context.Background()) {
+		// ... and deferrals made during the re-adding wait for the next event of their awaited type
+		for _, d := range post {
+			mwait[d.awaited] = append(mwait[d.awaited], d.ev)
+		}
+		if !ticked {
 			return false, fmt.Sprintf("Tick handled nothing although event %d is pending", head.val)
 		}
 		handled[head.val]++
@@ -444,7 +497,7 @@ func genLoopCase(rt *rapid.T) loopCase {
 			U:     rapid.IntRange(0, 5).Draw(rt, "u"),
 			Prio:  rapid.Bool().Draw(rt, "prio"),
 			InAdd: rapid.IntRange(0, 5).Draw(rt, "inadd") == 0,
-			Act:   rapid.SampledFrom([]int{0, 0, 0, 1, 2, 3}).Draw(rt, "act"),
+			Act:   rapid.SampledFrom([]int{0, 0, 0, 1, 2, 3, 4, 4, 5, 5}).Draw(rt, "act"),
 		}
 	}
 	cap := rapid.SampledFrom([]int{64, 64, 64, 3, 5}).Draw(rt, "cap")
